@@ -117,6 +117,15 @@ def run(run, binfo):
             gens.append(([('lit', a)], {}, {'roles': [b]}))
             gens.append(([('lit', a.upper())], {}, {'roles': [b, 'zz']}))
             gens.append(([('hole', 'k')], {'k': a}, {'roles': [b.upper()]}))
+    # placeholder KEYS are case-sensitive even though role NAMES are not: the same template with another spelling of the key
+    # is another rule (both orders of appearance within this process)
+    for k1, k2 in (('project', 'Project'), ('Key', 'key'), ('tenant_name', 'TENANT_NAME')):
+        for pre in ([], [('lit', 'Team-')]):
+            for ka, kb in ((k1, k2), (k2, k1)):
+                gens.append((pre + [('hole', ka)], {ka: 'dev', kb: 'Ops'}, {'roles': ['team-dev', 'DEV', 'zz']}))
+                gens.append((pre + [('hole', kb)], {ka: 'dev', kb: 'Ops'}, {'roles': ['team-ops', 'ops', 'reader']}))
+                gens.append((pre + [('hole', ka)], {kb: 'dev'}, {'roles': ['team-dev', 'DEV']}))
+                gens.append((pre + [('hole', kb)], {ka: 'dev'}, {'roles': ['team-dev', 'DEV']}))
     reqs = [[8, 0, enc_parts(p), enc_jv(t), enc_jv(c)] for p, t, c in gens]
     spec = run_batch(reqs)
     cases, wants = [], []
